@@ -11,7 +11,9 @@ import numpy as np
 from harness import common as C
 from harness import c01 as H1
 
-RULE = ('FFT cases: every shape in {1..9}^2 (all parity pairs, square and not) plus a few up to 24x17, Q in {1,2,3,1.5,2.37,1.2}, '
+RULE = ('Every case evaluates the property predicate on the real code; the Lean model comparison runs on all cases in the thorough / '
+        'widened tiers and on a sample in quick (the fixed near-symmetric block always; 60-70% of small, 25-30% of larger random cases).  '
+        'FFT cases: every shape in {1..9}^2 (all parity pairs, square and not) plus a few up to 24x17, Q in {1,2,3,1.5,2.37,1.2}, '
         'complex (70%) / real input, float64 (85%) / float32 configuration: energy of focus/unfocus/pad2d, unfocus(focus)=id, '
         'focus(unfocus)=id, unfocus(focus(f,Q),1)=pad2d(f,Q) and its dual, focus(f,Q)=focus(pad2d(f,Q),1), Wavefront.focus (given and DEFAULT Q) / unfocus incl. space and dx '
         'round trip; band-complete cases: (m,Qy) and (n,Qx) drawn from all pairs with m*Q integer, '
@@ -540,6 +542,13 @@ def correspondence(ctx):
 
 
 def _corr(ctx, ft, pr, config):
+    import os, sys, time
+    _t = [time.time()]
+
+    def _prof(name):
+        if os.environ.get('VERIF_PROFILE'):
+            print(f'profile C02 {name}: {time.time() - _t[0]:.1f} s', file=sys.stderr)
+        _t[0] = time.time()
     shapes = list(itertools.product(range(1, 10), repeat=2))
     lines, todo = [], []
 
@@ -555,9 +564,12 @@ def _corr(ctx, ft, pr, config):
         if not ok:
             ctx.pred_fail('fft_energy', c, detail)
             continue
-        if m * n <= 81 or ctx.rng.random() < 0.3:
+        # the Lean model side is an interpreted double sum and dominates the run time: the quick tier sends a sample of the cases
+        # to it (every case still evaluates the property's predicate on the real code); widened / thorough: all small cases
+        M, N = ex['focus'].shape
+        p_model = 1.0 if (ctx.thorough or ctx.widen) else (0.7 if M * N <= 120 else 0.25)
+        if (m * n <= 81 or ctx.rng.random() < 0.3) and ctx.rng.random() < p_model:
             f = make_input(c['shape'], c['dtype'], c['seed'])
-            M, N = ex['focus'].shape
             lines.append(f'fft2 -1 {m} {n} {M} {N} {arr2w(f)}')
             lines.append(f'pad {m} {n} {M} {N} {arr2w(f)}')
             todo.append(('fft', c, ex, (M, N), len(lines) - 2))
@@ -590,7 +602,10 @@ def _corr(ctx, ft, pr, config):
         q = f'{C.f2w(c["Q"][0])} {C.f2w(c["Q"][1])} {C.f2w(c["shift"][0])} {C.f2w(c["shift"][1])}'
         K1, L1 = ft.next_fast_len(m + M - 1), ft.next_fast_len(n + N - 1)
         cost = m * n * M * N + (K1 * L1 * (K1 + L1) if K1 * L1 * (K1 + L1) <= 5000 else 0)
+        fixed_block = c['seed'] >= 5000 and c['seed'] < 5100 and c.get('forms') is None and c.get('layout') == 'C'
         if cost > ctx.scale(6000, 12000) and ctx.rng.random() < 0.8:
+            continue
+        if not (ctx.thorough or ctx.widen or fixed_block) and ctx.rng.random() > (0.6 if cost <= 2000 else 0.3):
             continue          # the model side is an interpreted O(n^4) double sum: run it on the smaller cases and a sample of the rest
         lines.append(f'rtmdft {m} {n} {M} {N} {q} {arr2w(f)}')
         lines.append(f'dftband {m} {n} {M} {N} {q} {arr2w(f)}')
@@ -600,6 +615,7 @@ def _corr(ctx, ft, pr, config):
         else:
             todo.append(('band_nocz', c, ex, (M, N), len(lines) - 2))
 
+    _prof('fft+band python')
     # ---- free space
     acases = [gen_asp(ctx.rng, s) for _ in range(ctx.scale(2, 14)) for s in shapes]
     acases += [gen_asp(ctx.rng, (int(ctx.rng.integers(10, 25)), int(ctx.rng.integers(10, 18)))) for _ in range(ctx.scale(10, 120))]
@@ -617,19 +633,21 @@ def _corr(ctx, ft, pr, config):
         if m * n <= 81:
             g = ex['g']
             mm, nn = g.shape
-            if mm * nn <= 200:
+            if mm * nn <= 200 and (ctx.thorough or ctx.widen or mm * nn <= 60 or ctx.rng.random() < 0.5):
                 hdr = f'{mm} {nn} {C.f2w(c["wvl"])} {C.f2w(c["dx"])} {C.f2w(c["z"])}'
                 lines.append(f'asptf {hdr}')
                 lines.append(f'asp {hdr} {arr2w(g)}')
                 lines.append(f'asptfb {mm} {nn} {arr2w(ex["tf"])} {arr2w(g)}')
                 todo.append(('asp', c, ex, (mm, nn), len(lines) - 3))
 
+    _prof('free_space python')
     # ---- fftfreq table
     nmax = ctx.scale(40, 200)
     ff_at = len(lines)
     lines += [f'fftfreq {n}' for n in range(1, nmax + 1)]
 
     rep = driver(lines)
+    _prof('lean driver')
     for kind, c, ex, (M, N), at in todo:
         et, tol = tols(c)
         m, n = c['shape']
